@@ -57,6 +57,8 @@ inductive Ev
   | died (aid : Nat)
   /-- op: pool size request (AdjustWorkerPool / UpdateSettings.worker_count / capacity controller) -/
   | requested (n : Nat)
+  /-- op: the held-busy factory is released, its capacity controller answers `n` -/
+  | released (n : Nat)
   /-- op: discard settings replaced -/
   | settings (disc : Option (Nat × Mode))
   | drainReq
@@ -154,7 +156,12 @@ structure W where
   env : Env
   nextAid : Nat
   stopSignal : Bool
+  /-- the factory actor has entered `post_stop`: it handles and accepts nothing any more -/
   stopped : Bool
+  /-- `post_stop` has completed (every worker it waits for has exited): the actor is `Stopped` -/
+  exited : Bool := false
+  /-- worker actors `post_stop` waits for -/
+  awaiting : List Nat := []
   inbox : List FMsg
   blocked : Bool
   armed : Bool
@@ -738,15 +745,23 @@ def Env.dropMsg (e : Env) : FMsg → Env
 /-- jobs still in a worker queue vanish with the pool -/
 def Env.dropWorkerQueue (e : Env) (p : WP) : Env := p.mq.foldl (fun e j => e.emit (.dropped j.id)) e
 
-/-- `post_stop` -/
+/-- `post_stop` up to the point where it waits for the workers to exit: the remaining factory
+queue is discarded, the workers are told to stop. The factory's bookkeeping is dropped. -/
 def W.postStop (w : W) : W :=
   let e := w.queue.foldl Env.dropQueued w.env
   let e := w.pool.foldl Env.dropWorkerQueue e
   let e := w.pool.foldl (fun e p => e.stop p.actor) e
-  let e := e.emit (.hook .stopped)
-  let e := w.inbox.foldl Env.dropMsg e
-  -- the factory's state is dropped with the actor
-  { w with env := { e with sup := [] }, queue := [], stopped := true, inbox := [], pool := [], poolSize := 0 }
+  { w with env := { e with sup := [] }, queue := [], stopped := true, pool := [], poolSize := 0
+           awaiting := w.pool.map (·.actor) }
+
+/-- the rest of `post_stop`, once every awaited worker has exited: the stopped hook runs, the
+actor exits and whatever is still in its mailbox is dropped with it -/
+def W.tryFinishStop (w : W) : W :=
+  if w.stopped && !w.exited && w.awaiting.all (fun aid => !(w.env.getActor aid).any (·.alive)) then
+    let e := w.env.emit (.hook .stopped)
+    let e := w.inbox.foldl Env.dropMsg e
+    { w with env := { e with sup := [] }, inbox := [], exited := true }
+  else w
 
 def W.replyAvailableCapacity (w : W) : Nat :=
   let avail := (w.pool.filter fun p => !p.draining && p.isAvailable).length
@@ -799,7 +814,7 @@ def W.runQ : Nat → W → W
     match w.loopStep with
     | some w => W.runQ fuel w
     | none =>
-      let w' := { w with env := w.env.settle }
+      let w' := W.tryFinishStop { w with env := w.env.settle }
       if w'.env.sup.isEmpty || w'.stopped || w'.blocked then w' else W.runQ fuel w'
 
 def RUN_FUEL : Nat := 4096
@@ -873,7 +888,7 @@ def W.applyOp (w : W) : Op → W
   | .block => { w with armed := true }
   | .release n =>
     if w.blocked then
-      let w := (w.emit (.requested n))
+      let w := (w.emit (.released n))
       let w := { w with blocked := false }
       let w := if w.poolSize != n then w.resizePool n else w
       w.calcRest.afterHandle
@@ -893,7 +908,7 @@ def W.queries (w : W) : W :=
   else ((W.ask { w with answers := [] } .getQueueDepth).ask .getNumActiveWorkers).ask .getAvailableCapacity
 
 def W.live (w : W) : List Nat :=
-  if w.stopped then [] else (w.env.actors.filter (·.alive)).map (·.aid)
+  if w.exited then [] else (w.env.actors.filter (·.alive)).map (·.aid)
 
 /-- One harness step: op at `t0`, queries at `tq`, snapshot at `te`. -/
 def W.stepOp (w : W) (op : Op) (t0 tq te : Nat) : W :=
@@ -903,7 +918,7 @@ def W.stepOp (w : W) (op : Op) (t0 tq te : Nat) : W :=
   let w := w.queries
   let w := W.advanceTo te (advanceFuel w te) w
   let ans := fun (i : Nat) => (w.answers.getD i none)
-  W.emit { w with lastWq := none } (.snap (!w.stopped) (ans 0) (ans 1) (ans 2) w.live w.lastWq)
+  W.emit { w with lastWq := none } (.snap (!w.exited) (ans 0) (ans 1) (ans 2) w.live w.lastWq)
 
 /-- one harness step with its three instants -/
 structure Step where
